@@ -4,6 +4,7 @@
 #include "CppUTest/TestHarness.h"
 #include "CppUTest/TestTestingFixture.h"
 #include "hlib.h"
+#include <type_traits>
 #include "C03_shared.h"
 using namespace hl;
 
@@ -36,9 +37,17 @@ template <class F> static void withInt(int ty, unsigned long long b, F f)
 }
 
 #define DONE after_ = 1
-#define K2(M) withInt(c03.ta, c03.za, [](auto a) { withInt(c03.tb, c03.zb, [a](auto b) { if (c03.text) { M##_TEXT(a, b, "txt"); } else { M(a, b); } DONE; }); })
+static void unsupported() { fprintf(stderr, "C03 harness: operand type combination not instantiated\n"); exit(3); }
+// the _TEXT variants are instantiated for same-type operand pairs only, CHECK_COMPARE for the six int..unsigned long long
+// types plus same-type pairs (compile time); the generator respects this (checks/C03.py)
+#define SAME(a, b) (std::is_same<decltype(a), decltype(b)>::value)
+#define WIDE(a, b) (SAME(a, b) || (sizeof(a) >= 4 && sizeof(b) >= 4))
+#define K2(M) withInt(c03.ta, c03.za, [](auto a) { withInt(c03.tb, c03.zb, [a](auto b) { \
+    if (c03.text) { if constexpr (SAME(a, b)) { M##_TEXT(a, b, "txt"); DONE; } else unsupported(); } else { M(a, b); DONE; } }); })
 #define K1(M) withInt(c03.ta, c03.za, [](auto a) { if (c03.text) { M##_TEXT(a, "txt"); } else { M(a); } DONE; })
-#define CMP(OP) withInt(c03.ta, c03.za, [](auto a) { withInt(c03.tb, c03.zb, [a](auto b) { if (c03.text) { CHECK_COMPARE_TEXT(a, OP, b, "txt"); } else { CHECK_COMPARE(a, OP, b); } DONE; }); })
+#define CMP(OP) withInt(c03.ta, c03.za, [](auto a) { withInt(c03.tb, c03.zb, [a](auto b) { \
+    if (c03.text) { if constexpr (SAME(a, b)) { CHECK_COMPARE_TEXT(a, OP, b, "txt"); DONE; } else unsupported(); } \
+    else { if constexpr (WIDE(a, b)) { CHECK_COMPARE(a, OP, b); DONE; } else unsupported(); } }); })
 #define ENUMT(T) withInt(c03.ta, c03.za, [](auto a) { decltype(a) b = (decltype(a))c03.zb; if (c03.text) { ENUMS_EQUAL_TYPE_TEXT(T, a, b, "txt"); } else { ENUMS_EQUAL_TYPE(T, a, b); } DONE; })
 
 static void body()
